@@ -56,3 +56,10 @@ Proof.
     rewrite <- not_true_iff_false in Hf. apply Hf. apply mem_In, in_or_app. right. left. reflexivity.
   - apply rsplit_once_none in E. split; [congruence|]. split; auto.
 Qed.
+
+(* reading a metadata file: the text read is the whole content exactly when the
+   content is valid UTF-8 (no length, block or position enters), an error otherwise *)
+Theorem pkg_read_file_spec c r : pkg_read_file c = Some r <-> utf8_valid c = true /\ r = c.
+Proof. unfold pkg_read_file. destruct (utf8_valid c); split; intros H; try discriminate; try (injection H as <-; auto); destruct H as [H ->]; congruence. Qed.
+Theorem pkg_read_file_error c : pkg_read_file c = None <-> utf8_valid c = false.
+Proof. unfold pkg_read_file. destruct (utf8_valid c); split; congruence. Qed.
